@@ -252,7 +252,7 @@ def describe_stats_event(ev):
     if ev["args"]["raw"] != "none":
       d["raw_listeners"] = ev["args"]["raw"]
     if ev.get("since"):
-      d["interleaved_with"] = "split_reply_of_non_multipart_type"
+      d["interleaved_with"] = "reply_of_non_multipart_type"
       d.pop("raw_listeners", None)
   else:
     d["kind"] = ev["args"]["kind"]
